@@ -788,6 +788,9 @@ unit({
         {'file': 'src/Map/SavedGameUnits.cpp', 'qual': 'SavedGameUnits::CheckSizeOfUnit', 'cls': 'SavedGameUnits', 'cname': 'SavedGameUnits_CheckSizeOfUnit'},
         _mr('ReadSavedGameUnits', views=[(r'savedGameUnits\.objects[12]', 'vec')]),
         _mw('CreateHeader'), _mw('GetWidthInTilesLog2'), _mw('WriteContainerSize', static=True),
+        _mw('WriteTileGroups', static=True, members={}, rangefor={'tileGroup': 'TileGroup'}, views=[(r'\(\*tileGroups\)', 'vec'), (r'\(\*tileGroup\)\.mappingIndices', 'vec'), (r'\(\*tileGroup\)\.name', 'str')],
+            calls={'WriteContainerSize': T('Map_WriteContainerSize', recv='none', args=['ref', None]), 'empty': N('vec_TileGroup_empty'),
+                   'Write': {1: [(r'\(\*tileGroup\)\.mappingIndices', T('Wr_Write', args=['vec'])), (r'.*', T('Wr_Write', args=['obj']))], ('uint32_t', 1): [(r'.*name', T('Writer_WriteSized_u32_str', args=['ref']))]}}),
         _mw('Write', ordinal=1, calls={'CreateHeader': T('Map_CreateHeader'),
                                       'Write': {1: [(r'\(\*map\)\.tiles', T('Wr_Write', args=['vec'])), (r'.*', T('Wr_Write', args=['obj']))], 2: T('Wr_Write'),
                                                 ('uint32_t', 1): [(r'.*tileMappings', T('Writer_WriteSized_u32_vec_TileMapping', args=['ref'])), (r'.*terrainTypes', T('Writer_WriteSized_u32_vec_TerrainType', args=['ref']))]},
